@@ -76,7 +76,7 @@ def _parts(tier):
 def _chain_parts(tier):
     if tier == "quick":
         return list(enums.compositions_with_zeros(N, 2)) + [c for c in enums.compositions(N) if len(c) == 3]
-    return _parts(tier)
+    return _parts("quick")  # thorough: all <= 3 partitions incl. empty ones + 4-partition splits
 
 
 METHODS = {"tasks": ("tasks", {}), "disk": ("disk", {}), "tasks-mb2": ("tasks", {"max_branch": 2}), "default": (None, {})}
@@ -141,7 +141,7 @@ def RULE(tier):
         f"unique / nunique(dropna): {UNIQUE_COL[tier]} x split_out {UNIQUE_SPLIT[tier]} x shuffle method; DataFrame.nunique. "
         f"depth-2 chains: {CHAIN_STEP1} on K1 in {CHAIN_KEYS} (split_out/npartitions {CHAIN_NOUT1[tier]}) then "
         f"{CHAIN_STEP2_QUICK if tier == 'quick' else CHAIN_STEP2} with split_out {CHAIN_SPLIT2}"
-        f"{' over the ' + str(len(_chain_parts(tier))) + ' partitionings with <= 2 partitions incl. empty ones or exactly 3 non-empty' if tier == 'quick' else ''}: "
+        f" over {len(_chain_parts(tier))} partitionings ({'<= 2 partitions incl. empty ones or exactly 3 non-empty' if tier == 'quick' else '<= 3 incl. empty ones or exactly 4 non-empty'}): "
         "surviving keys == pandas' chain, every kept row is an input row. "
         "non-trivial = >= 2 input partitions."
     )
@@ -278,6 +278,11 @@ def known_class(case, failure):
     kind = case[0]
     if kind == "dedup" and failure == "wrong-representative" and case[2] == "disk":
         return "disk-shuffle"
+    if kind == "chain":
+        _, s1, k1, n1, s2, so, parts = case
+        one_partition_after_step1 = n1 == 1 and n1 is not True or (n1 is True and len(parts) == 1)
+        if failure == "dask-raises:AssertionError" and one_partition_after_step1 and so > 1 and s2.startswith("dedup:") and set(_cols(k1)) <= set(_cols(s2[6:])):
+            return "split-out-on-single-hash-partition"
     if kind == "setidx":
         col, mode = case[1], case[3]
         if col in ("kf", "kn") and failure in ("not-sorted-like-pandas", "dask-raises:TypeError"):
@@ -530,12 +535,7 @@ def plan(case, pdf):
                     why = dfh.equal(got[K2].reset_index(drop=True), want[K2].reset_index(drop=True), ordered=False, check_index=False)
                     if why:
                         problems.append(("wrong-keys", why))
-                    r1 = step1_pd()
-                    if s1 != "dedup":
-                        r1 = r1  # shuffle keeps every row
-                    else:
-                        r1 = src  # any input row with that K1 key may represent it only if it is pandas' first: checked by the depth-1 cases
-                    ok_rows = {tuple("~" if pd.isna(x) else repr(x) for x in r) for r in r1[["ki", "ks", "v"]].itertuples(index=False)}
+                    ok_rows = {tuple("~" if pd.isna(x) else repr(x) for x in r) for r in src.itertuples(index=False)}
                     bad = [r for r in got[["ki", "ks", "v"]].itertuples(index=False) if tuple("~" if pd.isna(x) else repr(x) for x in r) not in ok_rows]
                     if bad:
                         problems.append(("rows-invented", f"rows not in the input: {bad}"))
